@@ -825,3 +825,31 @@ impl BytecodeInterpreter {
         )
     }
 }
+
+/// Verification hook (property C09 of /verif): read-only copy of the compiler tables and of the
+/// virtual machine. Nothing here is used by numbat itself.
+#[cfg(feature = "verif")]
+impl BytecodeInterpreter {
+    pub(crate) fn verif_c09_parts(&self) -> crate::verif::c09::InterpreterParts {
+        let mut functions: Vec<(String, bool)> = self
+            .functions
+            .iter()
+            .map(|(name, is_foreign)| (name.to_string(), *is_foreign))
+            .collect();
+        functions.sort();
+        crate::verif::c09::InterpreterParts {
+            vm: self.vm.verif_c09_parts(),
+            locals: self
+                .locals
+                .iter()
+                .map(|scope| {
+                    scope
+                        .iter()
+                        .map(|l| l.identifiers.iter().map(|i| i.to_string()).collect())
+                        .collect()
+                })
+                .collect(),
+            functions,
+        }
+    }
+}
